@@ -391,7 +391,7 @@ func repeat(c *Case, w writer, first string) {
 	logged := 0
 	for k := 1; k <= c.Reps; k++ {
 		cc := *c
-		cc.Case = c.Case + (50+k)*10000000
+		cc.Case = c.Case + (50+k%150)*10000000 // below 2^31 (TLC integers); repetitions are logged one after the other, ids may repeat
 		if cc.Rel == "ref" {
 			cc.Rel = "same"
 		}
